@@ -149,6 +149,26 @@ class GGen:
                    "x": {"e": "call", "f": "same", "cargs": [{"e": "type", "ty": {"w": 0, "s": False}, "text": "P"}],
                          "args": [{"e": "rec", "ty": "P", "fs": [{"n": "a", "x": self.conc_lit(I32)}, {"n": "b", "x": self.conc_lit(("int", 1, False))}]}]}})
         ss.append({"s": "print", "ty": I32, "x": {"e": "fld", "x": {"e": "var", "n": "rec_1"}, "f": "a"}})
+        # a distinct type and a struct type as comptime arguments of a generic that chooses between two values
+        fns.append({"name": "pick", "cparams": [{"n": "T", "kind": "type"}],
+                    "params": [{"n": "c", "ty": capygen.BOOL}, {"n": "a", "ty": "T"}, {"n": "b", "ty": "T"}], "ret": "T",
+                    "body": {"e": "blk", "label": "", "ss": [], "tail": {
+                        "e": "ifx", "c": {"e": "var", "n": "c"},
+                        "t": {"e": "blk", "label": "", "ss": [], "tail": {"e": "var", "n": "a"}},
+                        "f": {"e": "blk", "label": "", "ss": [], "tail": {"e": "var", "n": "b"}}}}})
+        di = lambda: {"e": "cast", "ty": jty(I32), "tytext": "DI", "x": self.conc_lit(I32)}
+        for _ in range(r.randrange(1, 3)):
+            ss.append({"s": "print", "ty": I32, "x": {"e": "cast", "ty": jty(I32), "x": {
+                "e": "call", "f": "pick", "cargs": [{"e": "type", "ty": {"w": 0, "s": False}, "text": "DI"}],
+                "args": [{"e": "bool", "v": r.random() < 0.5}, di(), di()]}}})
+        pl = lambda: {"e": "rec", "ty": "P", "fs": [{"n": "a", "x": self.conc_lit(I32)}, {"n": "b", "x": self.conc_lit(("int", 1, False))}]}
+        ss.append({"s": "print", "ty": ("int", 1, False), "x": {"e": "fld", "f": "b", "x": {
+            "e": "call", "f": "pick", "cargs": [{"e": "type", "ty": {"w": 0, "s": False}, "text": "P"}],
+            "args": [{"e": "bool", "v": r.random() < 0.5}, pl(), pl()]}}})
+        # every second program keeps its generic functions in an imported file
+        if r.random() < 0.5:
+            for f in fns:
+                f["file"] = "lib"
         fns.append({"name": "main", "params": [], "ret": I32,
                     "body": {"e": "blk", "label": "", "ss": ss, "tail": {"e": "int", "ty": jty(I32), "b": [r.randrange(256), 0, 0, 0]}}})
         return {"fns": fns}
@@ -161,8 +181,9 @@ def run(chk):
     chk.cov["rule"] = ("seeded programs with functions that have comptime parameters (a type, optionally a constant), "
                        "bodies written for any integer type (arithmetic, literals T.(k), casts through concrete types, "
                        "loops bounded by the constant, nested generic calls passing the type on), 3-5 instantiations per "
-                       "program called repeatedly and interleaved, and a generic identity instantiated with an array and a "
-                       "struct; executed and validated against CapySem.tla, which binds comptime arguments like parameters")
+                       "program called repeatedly and interleaved, a generic identity instantiated with an array and a "
+                       "struct, a generic choice instantiated with a distinct and a struct type, run-time parameters before "
+                       "the comptime ones, and (every second program) the generic functions kept in an imported file; executed and validated against CapySem.tla, which binds comptime arguments like parameters")
 
 
 def replay(path):
